@@ -466,6 +466,22 @@ def part_b(ctx, torch, rng, fails):
         cases.append("(%s, (%s, %s), %s, %s, %s)" % (cnat(kind), cnat(p1), cnat(p2), cnat(B),
                                                      clist(clist(cz(x) for x in row) for row in W), impl))
         meta.append(m)
+        # the property on the implementation's own output, independently of the model: the reported reward of instance b is
+        # what its returned actions are worth on instance b (W[b][tag]) and is the best of b's own candidates (the rows
+        # r = b mod B of the batchified layout)
+        bad = []
+        for b, (a, r) in enumerate(zip(acts.tolist(), rew.tolist())):
+            tag = int(a[0])
+            own = [W[b][x] for x in range(len(W[b])) if x % B == b]
+            if not (0 <= tag < len(W[b])) or W[b][tag] != int(r):
+                bad.append({"instance": b, "returned_action_tag": tag, "reported_reward": r,
+                            "reward_of_returned_actions_on_this_instance": W[b][tag] if 0 <= tag < len(W[b]) else None})
+            elif int(r) != max(own):
+                bad.append({"instance": b, "reported_reward": r, "best_of_own_candidates": max(own)})
+        if bad:
+            key = "reward-of-returned-actions-differs-from-reported" if "returned_action_tag" in bad[0] else "reported-reward-is-not-the-best-own-candidate"
+            fails.append(("%s: %s" % (m["unit"], key), dict(m, W=W, returned_action_tags=[int(a[0]) for a in acts.tolist()],
+                                                            reported_rewards=[int(x) for x in rew.tolist()], failing_instances=bad[:4])))
         ctx.seen({"b": m, "W": W}, nontrivial=B > 1 and p1 * max(p2, 1) > 1)
         ctx.count("regroup_cases_" + m["unit"])
 
@@ -509,7 +525,7 @@ def part_b(ctx, torch, rng, fails):
         if nz:
             i, c = nz[0]
             ctx.broken.append("correspondence C15/regroup: model and implementation differ in %d of %d cases (first: case %d, "
-                              "code %d = instance %d, 1 returned action row / 2 reward) %s" % (len(nz), len(codes), i, c, c // 1000 - 1, c % 1000, meta[i]))
+                              "code %d = instance %d, kind %d: 1 returned action row / 2 reward) %s" % (len(nz), len(codes), i, c, c // 1000 - 1, c % 1000, meta[i]))
 
 
 # ------------------------------------------------------------------------------------------------ part C
